@@ -249,6 +249,9 @@ def value_to_int():
     p = ToyParser()
     check("hex", p._value_to_int("0x10") == 16 and p._value_to_int("0xfff") == 4095 and p._value_to_int("0xFFFF") == 65535 and p._value_to_int("0x0") == 0)
     check("dec", p._value_to_int("10") == 10 and p._value_to_int("4095") == 4095 and p._value_to_int("007") == 7 and p._value_to_int("0") == 0)
+    # the conversion itself does not reduce: data words use all 16 bits, reduction is the business of the cell / instruction
+    check("wide", p._value_to_int("4096") == 4096 and p._value_to_int("65535") == 65535 and p._value_to_int("70000") == 70000
+          and p._value_to_int("0x1000") == 4096 and p._value_to_int("0x1000F") == 65551)
 
 
 @unit("C19/ToyParser.back-end/token-protocol", bounded=True)
